@@ -1,6 +1,7 @@
 import RactorModel.Lemmas.TwoNode
 import RactorModel.Lemmas.Agreement
 import RactorModel.Lemmas.HandshakeRefine
+import RactorModel.Lemmas.HandshakeProgress
 import RactorModel.Lemmas.NodeState
 
 /-!
@@ -227,6 +228,24 @@ theorem handshake_winner_is_the_elected_one (o : Ordering) (ho : o ≠ .eq) (cs 
     openOnA (hsRun o cs ops) = [acc] ∧ openOnB (hsRun o cs ops) = [acc] :=
   (hsRun_inv ⟨ho, hA, hB, hw⟩ ops).quiescent ⟨ho, hA, hB, hw⟩ hq
 
+
+/-- **The handshakes come to rest.** (progress) A state that is not at rest always has a step
+that does something; a step that does something strictly decreases the measure `hsMu`
+(3 per open end + 1 per open, not yet authenticated end); a step that is not enabled changes
+nothing. Hence in EVERY run — any schedule, any repetitions, any number of useless steps — at
+most `8 · #connections` steps do anything, and a run in which no enabled step is postponed for
+ever reaches a state at rest, where by `handshake_converges_on_one_link` both nodes hold the
+same single link. -/
+theorem handshake_comes_to_rest (o : Ordering) (cs : List Conn) (ops : List HOp) :
+    hsEffective o (hsInit cs) ops ≤ 8 * cs.length ∧
+    (∀ w : List Link, hsQuiescent w = false → ∃ op, hsEnabled o w op = true) ∧
+    (∀ (w : List Link) (op : HOp), hsEnabled o w op = true → hsMu (hsStep o w op) < hsMu w) ∧
+    (∀ (w : List Link) (op : HOp), hsEnabled o w op = false → hsStep o w op = w) := by
+  refine ⟨?_, enabled_of_not_quiescent o, hsStep_decreases o, hsStep_of_not_enabled o⟩
+  have := effective_bound o ops (hsInit cs)
+  rw [hsMu_init] at this
+  omega
+
 /-- (tie of the `authA` step to the `NodeServerState` model that the correspondence run compares
 with `node.rs`) `commit_authenticated` on node A's state — one registered session per connection
 open on A — elects among exactly the step's `activeA (markA w a)` and names as losers exactly the
@@ -372,6 +391,7 @@ end C18
 #print axioms C18.quiescent_set_is_the_single_winner
 #print axioms C18.handshake_converges_on_one_link
 #print axioms C18.handshake_winner_is_the_elected_one
+#print axioms C18.handshake_comes_to_rest
 #print axioms C18.commit_is_the_auth_step
 #print axioms C18.check_candidate_is_the_pre_step
 #print axioms C18.unauthenticated_cannot_influence_commit
